@@ -686,6 +686,11 @@ func checkAuthentication(validCredentials []Credentials, expectedRegion string, 
 	contentEncodingHeader := r.Header.Get("Content-Encoding")
 	isAwsChunked := hasAwsChunkedContentEncoding(contentEncodingHeader)
 
+	if _, err := url.ParseQuery(r.URL.RawQuery); err != nil {
+		// Pairs that url.ParseQuery drops would not be covered by the signature.
+		slog.DebugContext(r.Context(), "Malformed query string: "+err.Error())
+		return nil, false
+	}
 	parameters, err := parseSignatureParameters(r)
 	if err != nil {
 		slog.DebugContext(r.Context(), "Failed to parse signature parameters: "+err.Error())
